@@ -197,6 +197,12 @@ def run(ck, P):
     ok = bool(dr) and bool(stores) and all(has(X.facts(bt, e), "mod->batch.timer.ns") and S(e.args[1]) == "&mod->batch.timer" for e in dr) \
         and all(bt.ev_dominates(d, s) or not _reaches(bt, s, d) for d in dr for s in stores) and all(S(s.rhs) == bt.params[1]["name"] for s in stores)
     ck.ob("C13.3-SETTERS", bt.site("old timer removed first"), ok, "deregister under timer.ns != 0 precedes the new period store: %s" % ok)
+    from props.c18 import _result_checked
+    okc = bool(dr) and all(_result_checked(bt, d) for d in dr)
+    ck.ob("C13.3-SETTERS", bt.site("refused removal changes nothing"), okc,
+          "a refused deregistration of the old batch timer (e.g. -EAGAIN) returns before the new timeout is stored" if okc else
+          "the result of m_mod_src_deregister_tmr() is ignored: when it is refused the new timeout is stored anyway, the old timer stays armed under "
+          "a forgotten key")
     ls = [e for e in bt.events() if e.kind == "assign" and S(e.lhs) == "mod->batch.len"]
     okl = bool(ls) and all(has(X.facts(bt, e), "mod->batch.len", False) and has(X.facts(bt, e), bt.params[1]["name"]) and cval(e.rhs) == 2**64 - 1 for e in ls)
     ck.ob("C13.3-SETTERS", bt.site("len=SIZE_MAX only if 0"), okl, "batch.len forced to %s under %s" % ([S(e.rhs) for e in ls],
